@@ -834,6 +834,11 @@ func (m *MonC06) OnEnd(w *World) []Violation {
 					if ev.RID != rid || ev.T <= tr.T || ev.T >= leakEnd {
 						continue
 					}
+					if zeroT >= 0 && ev.T > zeroT {
+						// the direct subscription is gone (the client unsubscribed); what it
+						// still receives it receives for an indirect hold
+						continue
+					}
 					dm := asMap(ev.Data)
 					if dm == nil {
 						continue
